@@ -330,6 +330,17 @@ fn reuse(run: &mut Run, tier: Tier, prop: &str) {
     const B: usize = 128 * 1024;
     let ins: Vec<Vec<u8>> = vec![vec![], b"x".to_vec(), text_like(3000, 1), skewed(B, 60, 9), skewed(B + 7000, 60, 10), unique(2 * B, 3), vec![7; B + 1], (0..50_000).map(|i| (i % 23) as u8).collect()];
     let len = tier.pick(2usize, 3);
+    let x = reuse_family(run, prop, ins, len, &format!("reuse_histories_up_to_{len}_frames"));
+    run.set("reused_frames_differing_from_fresh_but_valid", x[0]);
+    // short frames of every size mix: what one frame leaves behind in recycled buffers (their lengths, the pool's
+    // order) shapes how the next frames are cut into blocks; every history of up to 4/5 frames over six short inputs
+    let short: Vec<Vec<u8>> = vec![vec![], b"x".to_vec(), text_like(10, 2), text_like(30, 3), text_like(100, 4), text_like(3000, 5)];
+    let len = tier.pick(4usize, 5);
+    reuse_family(run, prop, short, len, &format!("reuse_histories_of_short_frames_up_to_{len}_frames"));
+}
+
+fn reuse_family(run: &mut Run, prop: &str, ins: Vec<Vec<u8>>, len: usize, name: &str) -> [u64; 4] {
+    let th = meter::threads();
     let total = (1..=len).map(|l| ins.len().pow(l as u32)).sum::<usize>();
     let fresh: Vec<Vec<Vec<u8>>> = LEVELS.iter().map(|&l| ins.iter().map(|i| ruzstd::encoding::compress_to_vec(i.as_slice(), l)).collect()).collect();
     let accs = meter::par_fold(total, th, Acc::default, |a, mut k| {
@@ -379,8 +390,7 @@ fn reuse(run: &mut Run, tier: Tier, prop: &str) {
             }
         }
     });
-    let x = merge(run, prop, &format!("reuse_histories_up_to_{len}_frames"), accs, true);
-    run.set("reused_frames_differing_from_fresh_but_valid", x[0]);
+    merge(run, prop, name, accs, true)
 }
 
 struct Frag<'a> {
@@ -487,7 +497,7 @@ pub fn main(tier: Tier, replay: Option<Value>) -> i32 {
     let mut run = Run::new("C02", "exploration", tier);
     run_all(&mut run, tier, "C02");
     run.set("exhaustive", false);
-    run.set("rule", "(a) every string over {a,b} up to length 14/17, {a,b,c} up to 9/11, {a,b,c,d} up to 6/8, both levels; (b) threshold-directed families: lengths around 0 and around 1-3 block multiples x 4 content kinds, literal counts swept across 1024 and 16384, distinct symbol counts at every table-format boundary, match lengths and literal runs at every code boundary; (c) the block encoder's decision automaton: one 128 KiB generator per decision including a band of near-uniform blocks around the Huffman break-even (found by bisection through the literals hook), all sequences of two (thorough: three over a reduced alphabet) blocks + a short last block, with the observed previous->next decision matrix in the evidence; (d) every history of <= 2/3 frames over 8 inputs through one reused FrameCompressor equals fresh compressors; (e) every composition of the length as read sizes for short inputs, block-boundary read sizes for multi-block inputs. Oracle: this crate's decoder and libzstd return the input. non-trivial = inputs of at least 5 bytes");
+    run.set("rule", "(a) every string over {a,b} up to length 14/17, {a,b,c} up to 9/11, {a,b,c,d} up to 6/8, both levels; (b) threshold-directed families: lengths around 0 and around 1-3 block multiples x 4 content kinds, literal counts swept across 1024 and 16384, distinct symbol counts at every table-format boundary, match lengths and literal runs at every code boundary; (c) the block encoder's decision automaton: one 128 KiB generator per decision including a band of near-uniform blocks around the Huffman break-even (found by bisection through the literals hook), all sequences of two (thorough: three over a reduced alphabet) blocks + a short last block, with the observed previous->next decision matrix in the evidence; (d) every history of <= 2/3 frames over 8 inputs, and every history of <= 4/5 frames over six short inputs (0, 1, 10, 30, 100, 3000 bytes), through one reused FrameCompressor: every frame judged like a fresh compressor's; (e) every composition of the length as read sizes for short inputs, block-boundary read sizes for multi-block inputs. Oracle: this crate's decoder and libzstd return the input. non-trivial = inputs of at least 5 bytes");
     run.sample(json!({"case": "small scope", "input": "abbabbabbabbab", "levels": ["Uncompressed", "Fastest"]}));
     run.sample(json!({"case": "automaton", "blocks": ["near-uniform 255 symbols at the Huffman break-even +3, 1 planted match", "near-uniform +40", "short last block"]}));
     run.finish()
